@@ -147,7 +147,7 @@ def run(harness, tier, seed, replay=None):
         rng.shuffle(items)
         if not items:
             return []
-        size = max(1, min(64, len(items) // (NPROC * 4) or 1))
+        size = 1 if len(items) < 4000 else max(1, min(64, len(items) // (NPROC * 8) or 1))
         chunks = [(kind, c) for c in _chunks(items, size)]
         if pool is None:
             res = [_work(c) for c in chunks]
